@@ -116,9 +116,25 @@ def run(chk):
             if i % 3 == 2:
                 m.U = np.asarray(m.U) * g0.uniform(-2.0, 2.0)
                 m.V = np.asarray(m.V) * g0.uniform(-2.0, 2.0)
+        if i % 5 == 4:
+            # the same kind of initial values typed as integers (a legal way to write an initial V / U)
+            m.V = np.rint(np.asarray(m.V) * 3).astype(np.int64)
+            m.U = np.rint(np.asarray(m.U) * 3).astype(np.int64)
         okv = True
         prev = phase_v_marginal(m, classes)
         traj = {"V": [prev], "U": [], "D": []}
+        def per_class_equals_whole(phase, whole_fn, class_fn, mstep_name, attr):
+            """The E-step evaluated class by class (as the Dask path does, with the global accumulators) and reduced by the M-step
+            gives the same update as the E-step over the whole training set (accumulators additive over classes: Proofs/FAAcc.v)."""
+            ma, mb = copy.deepcopy(m), copy.deepcopy(m)
+            getattr(ma, mstep_name)([whole_fn(ma)])
+            getattr(mb, mstep_name)([class_fn(mb, k, [X[q] for q in range(len(X)) if y[q] == k]) for k in range(K)])
+            chk.count(1, key=("per-class E-steps", phase))
+            if not np.allclose(np.asarray(getattr(ma, attr)), np.asarray(getattr(mb, attr)), rtol=1e-9, atol=1e-12):
+                chk.fail("%s phase: E-steps evaluated class by class and reduced by the M-step differ from the E-step over the whole training set" % phase,
+                         dict(ctx, phase=phase, whole=hexlist(getattr(ma, attr)), per_class=hexlist(getattr(mb, attr))))
+        per_class_equals_whole("V", lambda mm: mm.e_step_v(X, y, per, n_acc, f_acc),
+                               lambda mm, k, Xk: mm.e_step_v(Xk, [k] * len(Xk), per, n_acc, f_acc), "m_step_v", "V")
         for k in range(iters + 2):
             m.m_step_v([m.e_step_v(X, y, per, n_acc, f_acc)])
             cur = phase_v_marginal(m, classes)
@@ -151,6 +167,8 @@ def run(chk):
         ys = [np.asarray(ly[k]) for k in range(K)]
         prev = phase_u_marginal(m, classes, ys)
         traj["U"].append(prev)
+        per_class_equals_whole("U", lambda mm: mm.e_step_u(X, y, per, ly),
+                               lambda mm, k, Xk: mm.e_step_u(Xk, [k] * len(Xk), per, ly), "m_step_u", "U")
         for k in range(iters + 2):
             m.m_step_u([m.e_step_u(X, y, per, ly)])
             cur = phase_u_marginal(m, classes, ys)
@@ -163,6 +181,8 @@ def run(chk):
         xss = [np.asarray(lx[k]) for k in range(K)]
         prev = phase_d_marginal(m, classes, ys, xss)
         traj["D"].append(prev)
+        per_class_equals_whole("D", lambda mm: mm.e_step_d(X, y, per, lx, ly, n_acc, f_acc),
+                               lambda mm, k, Xk: mm.e_step_d(Xk, [k] * len(Xk), per, lx, ly, n_acc, f_acc), "m_step_d", "D")
         for k in range(iters + 2):
             num_d, den_d = em_d_update(m, classes, ys, xss)
             m.m_step_d([m.e_step_d(X, y, per, lx, ly, n_acc, f_acc)])
